@@ -318,8 +318,8 @@ def Env.removePath (e : Env) (var : Str) (x : Elem) : Env :=
 
 structure St where
   env : Env                          -- `os.environ`: restored when a dependency fails
-  aliases : List (Str × Str)         -- `Eups.aliases`: not restored
-  unaliased : List Str               -- keys of `Eups.oldAliases` (marked for `unset`)
+  aliases : List (Str × Str)         -- `Eups.aliases`: restored with it
+  unaliased : List Str               -- keys of `Eups.oldAliases` (marked for `unset`): restored with it
   already : Already                  -- `Eups.alreadySetupProducts`: not restored
 deriving Repr
 
@@ -364,7 +364,8 @@ def acts (rec : Rec) (cfg : Cfg) (fwd : Bool) (depth : Nat) (noRec : Bool) (vro 
       | .ok s' => acts rec cfg fwd depth noRec vro d rest s'
       | .fuel => .fuel
       | .notFound s' | .raised s' =>
-        let s'' := { s' with env := s.env }                 -- popStack("env")
+        -- popStack("env"): os.environ, aliases and the marks for `unset` go back to the saved values
+        let s'' := { s' with env := s.env, aliases := s.aliases, unaliased := s.unaliased }
         if fwd && !opt then .raised s'' else acts rec cfg fwd depth noRec vro d rest s''
 
 /-- `{p.name: (p, None) for p in getSetupProducts()}` -/
@@ -388,9 +389,10 @@ def setup (cfg : Cfg) : Nat → Rec
           | none => false
         if skip then .ok s
         else
-          -- unsetupSetupProduct: restarts at depth 0; its outcome is not looked at
+          -- unsetupSetupProduct (at the same depth, so that max_depth keeps counting from the request);
+          -- its outcome is not looked at
           let r1 : Res := match sp with
-            | some _ => setup cfg fuel false 0 noRec vro d.name none none s
+            | some _ => setup cfg fuel false depth noRec vro d.name none none s
             | none => .ok s
           match r1 with
           | .fuel => .fuel
